@@ -11,6 +11,7 @@ import (
 	spb "google.golang.org/genproto/googleapis/rpc/status"
 	"google.golang.org/protobuf/encoding/protowire"
 	"google.golang.org/protobuf/types/known/anypb"
+	"google.golang.org/protobuf/types/known/structpb"
 	"io"
 	"mime"
 	"net"
@@ -65,6 +66,7 @@ type c11Case struct {
 	RetRecvErr bool   `json:",omitempty"`
 	NoRecv     bool   `json:",omitempty"` // stream handler does not read the request stream at all
 	RespN      int    // stream: number of responses
+	Deep       int    `json:",omitempty"` // the request carries an error detail holding a list nested this many levels deep
 	RespSize   int    `json:",omitempty"` // stream: payload bytes in every response (frame sizes around powers of two)
 	ErrCode    uint32 // 0 = ok
 	// JSONTwin: additionally send the same message JSON-encoded and compare (valid unary requests only)
@@ -139,12 +141,28 @@ func (c *c11Case) service(r *c11Run) *Service {
 	}
 }
 
+// msg: the request message of the case; with Deep > 0 it carries, as an error detail, a list nested that many levels
+// deep (a document whose JSON form is deeply nested while its protobuf form is flat bytes inside an Any).
+func (c *c11Case) msg() *pb.Message {
+	m := c.Msg.Build()
+	if c.Deep > 0 {
+		v := structpb.NewListValue(&structpb.ListValue{})
+		for i := 1; i < c.Deep; i++ {
+			v = structpb.NewListValue(&structpb.ListValue{Values: []*structpb.Value{v}})
+		}
+		if a, err := anypb.New(v.GetListValue()); err == nil {
+			m.ErrorDetails = append(m.ErrorDetails, a)
+		}
+	}
+	return m
+}
+
 func (c *c11Case) body(ct string) []byte {
 	switch c.BodyKind {
 	case "proto":
-		return mustMarshal(c.Msg.Build())
+		return mustMarshal(c.msg())
 	case "json":
-		b, err := protojson.Marshal(c.Msg.Build())
+		b, err := protojson.Marshal(c.msg())
 		if err != nil {
 			return []byte("{}")
 		}
@@ -152,7 +170,7 @@ func (c *c11Case) body(ct string) []byte {
 	case "frames":
 		var ms []proto.Message
 		for i := 0; i < c.NFrames; i++ {
-			m := c.Msg.Build()
+			m := c.msg()
 			m.Count = int32(i)
 			ms = append(ms, m)
 		}
@@ -168,7 +186,7 @@ func (c *c11Case) body(ct string) []byte {
 // falls inside a frame (as opposed to on a frame boundary).
 func (c *c11Case) cutBody() (body []byte, complete int, inside bool) {
 	for i := 0; i < c.NFrames; i++ {
-		m := c.Msg.Build()
+		m := c.msg()
 		m.Count = int32(i)
 		fr := appendFrame(nil, mustMarshal(m), false)
 		if i == c.CutFrame {
@@ -295,7 +313,7 @@ func newHTTPHandlerOnly(carrier string, desc *grpc.ServiceDesc, svc interface{})
 // did arrive end on a field boundary and would decode as a (different) message.
 func c11ShortUnary(c c11Case) *Outcome {
 	o := &Outcome{NonTrivial: true}
-	full := mustMarshal(c.Msg.Build())
+	full := mustMarshal(c.msg())
 	// candidate cut points: every field boundary and the drawn offset
 	var bounds []int
 	for off := 0; off < len(full); {
@@ -555,7 +573,7 @@ func keysOf(m map[int]bool) []int {
 
 // c11JSONTwin: the same message sent JSON-encoded must be handled identically.
 func c11JSONTwin(c *c11Case, protoRep *c11Reply) string {
-	jb, err := protojson.Marshal(c.Msg.Build())
+	jb, err := protojson.Marshal(c.msg())
 	if err != nil {
 		return ""
 	}
@@ -598,6 +616,8 @@ var c11Methods = []string{"POST", "POST", "POST", "POST", "GET", "HEAD", "PUT", 
 var c11CTs = []string{"application/x-protobuf", "application/json", "application/x-httpgrpc-proto+v1",
 	// names under which gRPC's own codec and compressor registries know something (none of them is a media type of this protocol)
 	"application/proto", "Application/Proto; charset=utf-8", "application/gzip", "application/identity", "application/protobuf", "application/x-proto",
+	// near misses of the streaming media type: other versions, decorated versions
+	"application/x-httpgrpc-proto+v1beta", "application/x-httpgrpc-proto+v1.1", "application/x-httpgrpc-proto+v01", "application/x-httpgrpc-proto+v+1", "application/x-httpgrpc-proto+v1-json", "application/x-httpgrpc-proto+v1+v2", "application/x-httpgrpc-proto+v10", "application/x-httpgrpc-proto+v",
 	"Application/X-Protobuf", "APPLICATION/JSON", "application/X-HTTPGRPC-PROTO+V1",
 	"application/x-protobuf; charset=utf-8", "application/json;charset=UTF-8", "application/x-httpgrpc-proto+v1; v=1", " application/json", "application/json ",
 	"application/x-protobuf;", "application/x-protobuf; bad", "application/json; charset", "application/json; =", "text/plain", "application/grpc", "application/x-httpgrpc-proto+v2", "application/x-protobuf2",
@@ -680,6 +700,9 @@ func genC11(t *rapid.T) c11Case {
 	c.Detail = rapid.Bool().Draw(t, "detail")
 	c.Msg = genMsg(t, "msg", 300)
 	c.Msg.Anys, c.Msg.Unknown = nil, nil // JSON cannot carry unresolvable Any / unknown fields
+	if rapid.IntRange(0, 9).Draw(t, "deep") == 0 {
+		c.Deep = rapid.SampledFrom([]int{3, 50, 98, 99, 100, 101, 150, 500}).Draw(t, "deepn")
+	}
 	for k := range c.Msg.Hdr {
 		if strings.ContainsRune(k, 0) {
 			delete(c.Msg.Hdr, k)
